@@ -178,6 +178,74 @@ def run_attempts(scn):
     return res.get(2, [0, 0]), res, errs
 
 
+def run_double_start(scn):
+    """One attempt on a real context; while it waits, the binding API is called AGAIN on the same device (refused: already binding);
+    then the offer arrives.  Returns (outcome of the first attempt, outcome of the refused call, is_binding right after the refusal)."""
+    import ramses_rf.binding_fsm as B  # noqa: PLC0415
+    from ramses_rf import exceptions as exc  # noqa: PLC0415
+
+    loop = VLoop(lifo=False)
+    asyncio.set_event_loop(loop)
+    res = {}
+    loop.set_exception_handler(lambda lp, c: None)
+
+    async def main():
+        class D(Dev):
+            async def _async_send_cmd(self, cmd, priority=None, qos=None):
+                res.setdefault("first", [1, 1 if type(ctx.state).__name__ in ("RespSendAcceptWaitForConfirm", "SuppSendOfferWaitForAccept") else 7])
+                await asyncio.Future()
+
+        dev = D("01:111111")
+        ctx = B.BindContext(dev)
+        offer, other = mk_msgs()
+
+        async def first():
+            try:
+                await ctx.wait_for_binding_request(["1260"])
+            except exc.BindingError as err:
+                res["first"] = [2, type(err).__name__]
+
+        async def second():
+            try:
+                if scn["second_role"] == "resp":
+                    await ctx.wait_for_binding_request(["1260"])
+                else:
+                    await ctx.initiate_binding_process(["1260"])
+                res["second"] = "started"
+            except exc.BindingFsmError:
+                res["second"] = "BindingFsmError"
+            except Exception as err:  # noqa: BLE001
+                res["second"] = type(err).__name__
+            res["binding_after_refusal"] = ctx.is_binding
+
+        t1 = loop.create_task(first())
+        loop.call_at(scn["second_at"], lambda: loop.create_task(second()))
+        loop.call_at(scn["offer_at"], lambda: ctx.rcvd_msg(offer) if ctx.is_binding else None)
+        await asyncio.sleep(7)
+        t1.cancel()
+        await asyncio.sleep(0)
+
+    try:
+        loop.run_until_complete(main())
+    finally:
+        asyncio.set_event_loop(None)
+        loop.close()
+    return res
+
+
+def double_starts(ctx: Ctx) -> None:
+    for second_at, offer_at, role in ((0.5, 1.0, "resp"), (G, 2 * G, "resp"), (2.0, 4.5, "supp"), (0.5, 1.0, "supp"), (4.0, 4.5, "resp")):
+        scn = {"second_at": second_at, "offer_at": offer_at, "second_role": role}
+        res = run_double_start(scn)
+        ctx.case(("double-start", second_at, offer_at, role), True, "double-start")
+        case = {**scn, **{k: (v if isinstance(v, str | bool) else list(v)) for k, v in res.items()}}
+        if res.get("second") != "BindingFsmError":
+            ctx.violation("second-start-while-binding-not-refused", "a binding API called while an attempt is under way is not refused with BindingFsmError", case, "schedule")
+        if res.get("binding_after_refusal") is not True or res.get("first", [0])[0] != 1:
+            ctx.violation("refused-start-disturbs-the-attempt-under-way", "a second start on a device that is already binding (correctly refused) ends or fails the attempt under way: "
+                          "the offer arriving afterwards within the wait is not taken", case, "schedule")
+
+
 def attempts_to_coq(scn) -> str:
     evs = [(0.0, "AWait EStart")]
     t1, t2 = scn["abandon_at"], scn["retry_at"]
@@ -308,6 +376,7 @@ def run(ctx: Ctx) -> None:
     else:
         ctx.obligation("correspondence:wait-step", False, "correspondence", "model not built")
     attempts_correspondence(ctx, built, 120 if thorough else 40)
+    double_starts(ctx)
     phase_correspondence(ctx, built)
     handshakes(ctx, 150 if thorough else 40)
 
